@@ -215,6 +215,8 @@ class Interp(AstMixin, Engine):
             return self.int_attr(obj, name)
         if isinstance(obj, SList):
             return BoundMethod(("slist", name), obj)
+        if type(obj).__name__ == "SBytes":
+            raise Unsupported(f"bytes method {name} on symbolic bytes")
         if isinstance(obj, SDict):
             return BoundMethod(("sdict", name), obj)
         if isinstance(obj, SStr):
@@ -403,7 +405,8 @@ class Interp(AstMixin, Engine):
     # ------------------------------------------------------------------ classification helpers
     @staticmethod
     def is_repo_class(cls: type) -> bool:
-        return getattr(cls, "__module__", "").startswith("pyoda_time")
+        m = getattr(cls, "__module__", "") or ""
+        return m.startswith("pyoda_time") or m.startswith("harness.")
 
     def is_repo_object(self, obj: Any) -> bool:
         if isinstance(obj, (int, str, float, tuple, list, dict, bytes, type(None), enum.Enum, types.ModuleType)):
